@@ -73,6 +73,8 @@ def levelSpan : Nat := 10000
 def Shard.init (cap kmerge : Nat) : Shard :=
   { cap, kmerge, mem := [], passives := [], jobs := [], live := [], nextL0 := 0,
     walOpen := 0, walCount := 0, walOrphan := false, segs := [], index := [],
+    -- a fresh shard writes its empty `segments.idx` at start (`ShardContext::published_segments`)
+    indexExists := true,
     -- the WAL task creates `wal-00000.log` when it starts
     wal := [(0, [])] }
 
@@ -231,7 +233,10 @@ def restart (s : Shard) : Shard :=
   let openId := if last == 0 then 0 else if lastLen < s.cap then last else last + 1
   let wal := walEnsure s.wal openId
   let openLen := ((wal.filter (·.1 == openId)).flatMap (·.2)).length
+  -- no index file and no directory: the empty index is written now
+  let fresh := !s.indexExists && dirs.isEmpty
   { s with mem := replay, passives := [], jobs := [], live := published s dirs, nextL0 := nextL0,
+           index := if fresh then [] else s.index, indexExists := s.indexExists || fresh,
            everSeg := dirs, tainted := false,
            walOpen := openId, walCount := openLen, walOrphan := false, wal := wal }
 
